@@ -12,7 +12,6 @@ import (
 	"errors"
 	"fmt"
 	"io"
-	"math/big"
 	"os"
 	"os/exec"
 	"strings"
@@ -42,6 +41,16 @@ type Server struct {
 	bundb       *bun.DB
 	buckets     map[string]bool
 	nextLedger  int
+	// RealTime makes every statement carry the wall clock as `now` (the model's
+	// clock is logical otherwise: +1 ms per statement).
+	RealTime bool
+	// WaitWhenBlocked makes a statement that LeanPG answers `blocked` wait (in real
+	// time) until another session ends a transaction, then retry; after
+	// BlockedTimeout it fails with 40P01 (deadlock detected). Used when real tests
+	// run goroutines against LeanPG without the deterministic scheduler.
+	WaitWhenBlocked bool
+	BlockedTimeout  time.Duration
+	wake            chan struct{}
 	// Hook, when set, is called before a statement is sent to lpg and may block
 	// (deterministic scheduler). It receives the session id and the SQL.
 	Hook func(session int, sql string)
@@ -73,6 +82,8 @@ func StartRecording(lenient bool) *Server {
 func (s *Server) init() {
 	s.faults = map[int]string{}
 	s.buckets = map[string]bool{}
+	s.wake = make(chan struct{})
+	s.BlockedTimeout = 20 * time.Second
 	s.sqldb = sql.OpenDB(&connector{srv: s})
 	s.sqldb.SetMaxIdleConns(64)
 	s.bundb = bun.NewDB(s.sqldb, pgdialect.New(), bun.WithDiscardUnknownColumns())
@@ -83,7 +94,7 @@ func DefaultLpgPath() string {
 	if p := os.Getenv("VERIF_LPG"); p != "" {
 		return p
 	}
-	return "/verif/lean/.lake/build/bin/lpg"
+	return "/verif/lean/.lake/build/bin/ldriver_sql"
 }
 
 func (s *Server) DB() *bun.DB    { return s.bundb }
@@ -189,13 +200,42 @@ func (s *Server) exec(ctx context.Context, c *conn, st *minisql.Stmt, q string) 
 		s.Hook(c.id, q)
 	}
 	req := map[string]any{"k": "sql", "s": c.id, "ast": st.JSON()}
+	deadline := time.Now().Add(s.BlockedTimeout)
 	for {
+		if s.RealTime {
+			req["now"] = time.Now().UnixMicro()
+		}
+		s.mu.Lock()
+		wake := s.wake
+		s.mu.Unlock()
 		resp, err := s.lpg.call(req)
 		if err != nil {
 			return nil, fmt.Errorf("pgfake: lpg: %w\n--- statement ---\n%s", err, q)
 		}
+		if _, blocked := resp["blocked"]; !blocked {
+			// any finished statement may have released something another session waits for
+			s.mu.Lock()
+			close(s.wake)
+			s.wake = make(chan struct{})
+			s.mu.Unlock()
+		}
 		if b, ok := resp["blocked"]; ok {
 			on := fmt.Sprint(b)
+			if s.OnBlocked == nil && s.WaitWhenBlocked {
+				select {
+				case <-wake:
+				case <-time.After(50 * time.Millisecond):
+				case <-ctx.Done():
+					_, _ = s.lpg.call(map[string]any{"k": "abort", "s": c.id})
+					return nil, ctx.Err()
+				}
+				if time.Now().After(deadline) {
+					_, _ = s.lpg.call(map[string]any{"k": "abort", "s": c.id})
+					return nil, &pgconn.PgError{Severity: "ERROR", Code: "40P01", Message: "deadlock detected (LeanPG: still blocked on " + on + " after " + s.BlockedTimeout.String() + ")"}
+				}
+				req["retry"] = true
+				continue
+			}
 			if s.OnBlocked == nil {
 				return nil, &pgconn.PgError{Severity: "ERROR", Code: "55P03", Message: "statement would block on " + on + " and no scheduler is installed"}
 			}
@@ -249,14 +289,8 @@ func decodeResult(resp map[string]any) (*Result, error) {
 	return r, nil
 }
 
-var (
-	minInt64 = big.NewInt(-1 << 63)
-	maxInt64 = new(big.Int).SetUint64(1<<63 - 1)
-)
-
 // decodeValue maps a LeanPG value to what a PostgreSQL driver would hand to
-// database/sql: int64 for integers that fit, decimal strings for larger ones,
-// string for text, time.Time (UTC) for timestamps, []byte for json/bytea, and
+// database/sql: decimal strings for integers, string for text, time.Time (UTC) for timestamps, []byte for json/bytea, and
 // PostgreSQL's text form for composites and arrays.
 func decodeValue(v any) (driver.Value, error) {
 	switch x := v.(type) {
@@ -267,14 +301,11 @@ func decodeValue(v any) (driver.Value, error) {
 	case string:
 		return x, nil
 	case json.Number:
-		s := x.String()
-		if b, ok := new(big.Int).SetString(s, 10); ok {
-			if b.Cmp(minInt64) >= 0 && b.Cmp(maxInt64) <= 0 {
-				return b.Int64(), nil
-			}
-			return s, nil
-		}
-		return s, nil
+		// every integer travels as its decimal text: `numeric` columns arrive that way
+		// from a PostgreSQL driver too, and bun / database/sql parse text for the
+		// integer kinds (int8 would come as int64 from pgx; nothing in the ledger
+		// depends on that)
+		return x.String(), nil
 	case map[string]any:
 		if ts, ok := x["ts"]; ok {
 			n, _ := ts.(json.Number)
@@ -479,4 +510,21 @@ func (s *Server) Raw(req map[string]any) (map[string]any, error) {
 		return nil, errors.New("pgfake: recording mode")
 	}
 	return s.lpg.call(req)
+}
+
+// WriteLog writes the statement log as JSON lines.
+func (s *Server) WriteLog(path string) error {
+	f, err := os.Create(path)
+	if err != nil {
+		return err
+	}
+	defer f.Close()
+	enc := json.NewEncoder(f)
+	enc.SetEscapeHTML(false)
+	for _, st := range s.Log() {
+		if err := enc.Encode(st); err != nil {
+			return err
+		}
+	}
+	return nil
 }
